@@ -540,9 +540,42 @@ def p7(repo, res):
                         "rotate(None) is then treated as vector input and appended to the path instead of being applied to the whole path", iff.lineno))
 
 
+def p9(repo, res):
+    """P9 LEN-PATH: length consistency of the path plumbing behind move / rotate, by length evaluation over the cases of (path length,
+    scalar / vector input and its length, start, anchor form, parent path length) - see lenpath.py"""
+    import lenpath
+    m = repo.mod("magpylib._src.obj_classes.class_BaseTransform")
+
+    def resolve(name):
+        r = repo.resolve_name(m, name)
+        return r[2] if r and r[0] == "func" else None
+    for fname, runner in (("apply_move", lenpath.run_move), ("apply_rotation", lenpath.run_rotation)):
+        fn = m.funcs.get(fname)
+        res.require(fn is not None, f"anchor vanished: {fname}")
+        records = {c.name: [st.target.id for st in c.body if isinstance(st, ast.AnnAssign) and isinstance(st.target, ast.Name)]
+                   for c in m.tree.body if isinstance(c, ast.ClassDef) and any(ast.unparse(b).endswith("NamedTuple") for b in c.bases)}
+        n, probs, und = runner(fn, resolve, records)
+        res.evaluations += n
+        if und:
+            res.ob(f"P9:{fname}", True, {"rule": "P9", "function": fname, "undecided": und}, nontrivial=False)
+            res.undecided.append(f"P9 LEN-PATH: {fname}: a construct outside the length fragment ({und}); lengths not decided")
+            continue
+        res.ob(f"P9:{fname}:lengths consistent for every case", not probs, {"rule": "P9", "function": fname, "cases_evaluated": n,
+                                                                         "inconsistent_cases": [f"{s_}: {t_}" for s_, _n, t_ in probs[:5]]})
+        seen = set()
+        for sample, node, txt in probs:
+            key = (norm(node)[:80] if not isinstance(node, ast.FunctionDef) else fname, txt.split(":")[0])
+            if key in seen:
+                continue
+            seen.add(key)
+            res.add(Finding("P9", m.rel, fname, node if not isinstance(node, ast.FunctionDef) else f"{fname}: path lengths",
+                            f"{txt} - for {sample}" + (f" (and {sum(1 for s2, n2, t2 in probs if n2 is node) - 1} more cases)" if sum(1 for s2, n2, t2 in probs if n2 is node) > 1 else ""),
+                            getattr(node, "lineno", None)))
+
+
 def run(repo, res, tier):
     res.rules = ["P1 composition/anchoring (FRAME)", "P2 rotate_from_* delegation", "P3 reject-before-mutate", "P4 paired pose writes / who-may-write", "P5 in-place pose writes", "P6 one padding computation", "P6b constructor pads for both length orderings",
-                 "P7 None is the single identity rotation", "P8 no read-only view becomes a pose path"]
+                 "P7 None is the single identity rotation", "P8 no read-only view becomes a pose path", "P9 LEN-PATH: path lengths consistent for every case of lengths / start / anchor"]
     frame_rules.c09_p1(repo, res)
     p2(repo, res)
     p3(repo, res)
@@ -551,6 +584,7 @@ def run(repo, res, tier):
     p6(repo, res)
     p6b(repo, res)
     p7(repo, res)
+    p9(repo, res)
     import rules_roview
     rules_roview.run(repo, res, 'P8')
     import origin_rules
